@@ -538,6 +538,21 @@ func c09Gen(r *Rand, tier string) []string {
 		"a　b", "a\u0085b", "a​b", `{ " } " }`, `"a b`, `{a b`} {
 		out = append(out, "split "+HexS(t))
 	}
+	// escapes surviving to the argument level: an argument is a template of its own, so text meant literally
+	// inside an argument is escaped once per pass (outer scanner, argument splitter, argument compile)
+	for i := 0; i < n/4+8; i++ {
+		var lit []byte
+		for k := r.Range(1, 5); k > 0; k-- {
+			lit = append(lit, Pick(r, []byte("a\\n t{}\"\n\t")))
+		}
+		nested := c09Pass1(c09Pass2(c09Escape(string(lit))))
+		el, ks := c09Ctx(r)
+		out = append(out, fmt.Sprintf("tpl %s %s %s %s", c09Opt(r), HexS("{a "+nested+" x}"), el, ks))
+		if r.Chance(1, 2) { // one level less / more than needed: still must agree with the model
+			out = append(out, fmt.Sprintf("tpl %s %s %s %s", c09Opt(r), HexS("{a "+c09Pass2(c09Escape(string(lit)))+"}"), el, ks))
+			out = append(out, fmt.Sprintf("tpl %s %s %s %s", c09Opt(r), HexS("{a {a "+c09Pass1(nested)+"}}"), el, ks))
+		}
+	}
 	for i := 0; i < n; i++ {
 		c, printed := c09TreeCase(r)
 		out = append(out, c)
@@ -649,4 +664,31 @@ func c09Stats(cases []string) map[string]int {
 
 func init() {
 	Register("C09", &Prop{Gen: c09Gen, Run: c09Run, Stats: c09Stats})
+}
+
+// c09Pass2 protects a text against the argument splitter (which drops one backslash level and splits
+// at white space / quotes / braces).
+func c09Pass2(s string) string {
+	var sb strings.Builder
+	for _, c := range s {
+		switch c {
+		case '\\', '"', '{', '}', ' ', '\t', '\n', '\r':
+			sb.WriteByte('\\')
+		}
+		sb.WriteRune(c)
+	}
+	return sb.String()
+}
+
+// c09Pass1 protects a text against the outer scanner inside a statement (backslash escapes, brace depth).
+func c09Pass1(s string) string {
+	var sb strings.Builder
+	for _, c := range s {
+		switch c {
+		case '\\', '{', '}':
+			sb.WriteByte('\\')
+		}
+		sb.WriteRune(c)
+	}
+	return sb.String()
 }
